@@ -30,12 +30,12 @@ NPROC = 8
 INVS = ['DepsSelected', 'Multiplicity', 'OrderFree', 'ExactOptimal', 'Additive', 'Homogeneous', 'EmitF']
 
 
-def cfg(nr, nc, *, cat, trainmax=3, rset='R12', thin_r=1, thin_t=1, pats='Pat3', compmax=2, lingrid=1, init='FInit',
+def cfg(nr, nc, *, cat, trainmax=3, rset='R12', thin_r=1, thin_1=1, thin_t=1, pats='Pat3', compmax=2, lingrid=1, init='FInit',
         trace=False):
     s = '\n'.join(['CONSTANTS', f'  NR = {nr}', f'  NC = {nc}', '  MaxObj = 1', '  MaxRows = 9', '  MaxPats = 9',
                    '  Depth = 0', '  NanPairs <- NanPairsNone', '  ArgLevel = 2', '  EmitMod = 1', '  Ops <- NoOps',
                    f'  Catalogue <- {cat}', f'  TrainMax = {trainmax}', f'  RSet <- {rset}', f'  ThinR = {thin_r}',
-                   f'  ThinT = {thin_t}', f'  PatSels <- {pats}', f'  CompMax = {compmax}', f'  LinGrid = {lingrid}']) + '\n'
+                   f'  Thin1 = {thin_1}', f'  ThinT = {thin_t}', f'  PatSels <- {pats}', f'  CompMax = {compmax}', f'  LinGrid = {lingrid}']) + '\n'
     if trace:
         return s + 'SPECIFICATION TSpec\nCHECK_DEADLOCK FALSE\n'
     return s + f'INIT {init}\nNEXT FNext\n' + ''.join(f'INVARIANT {i}\n' for i in INVS) + 'CHECK_DEADLOCK FALSE\n'
@@ -105,7 +105,7 @@ def _lin_job(args):
 
 
 def run_lin(ctx, name, nr, nc, **kw):
-    r = ctx.tlc('MC_Fitting', cfg(nr, nc, init='LInit', **kw), name=name, timeout=3000, workers=NPROC)
+    r = ctx.tlc('MC_Fitting', cfg(nr, nc, init='LInit', trainmax=0, **kw), name=name, timeout=3000, workers=NPROC)
     if not r.n_emitted:
         raise MachineryError(f'{name}: TLC emitted nothing')
     ctx.sample({'run': name, 'lin': next(r.iter_emitted())})
@@ -152,14 +152,14 @@ def run_traces(ctx, ntr):
     # binding self-test
     corrupt = []
     t0 = json.loads(json.dumps(traces[0]))
-    t0['ev'][0]['s9'] -= max(10 * t0['hdr']['tol9'], 10 ** 6)
+    t0['ev'][0]['comps'][0]['s9'] = t0['ev'][0]['s9'] + t0['hdr']['tol9'] + 5
     corrupt.append(t0)
     t1 = json.loads(json.dumps(traces[0]))
     row = t1['ev'][0]['tok'][0]
     k = next(i for i, v in enumerate(row) if v > 0)
     row[k] += 1
     corrupt.append(t1)
-    rejected = ctx.validate('MC_Trace_Fitting', cfg(const['NR'], const['NC'], cat='Cat4', trace=True), traces + corrupt,
+    rejected = ctx.validate('MC_Trace_Fitting', cfg(const['NR'], const['NC'], cat='Cat4', trainmax=0, trace=True), traces + corrupt,
                             name='fit_traces', timeout=1500)
     rej = {i: d for i, d in rejected}
     for j in range(len(corrupt)):
@@ -179,6 +179,9 @@ def run_traces(ctx, ntr):
         clause = {'data-entries': 'f', 'beaten': {'fit_regress': 'a', 'fit_regress_nn': 'b', 'fit_select': 'c',
                                                   'fit_interpolate': 'd'}[hdr['fitter']],
                   'negative-weight': 'b', 'not-unit-norm': 'e', 'not-adjacent-convex': 'd', 'index-range': 'c'}.get(why, 'a')
+        ev = traces[idx]['ev'][d.get('l', 1) - 1]
+        if why == 'beaten' and hdr['fitter'] == 'fit_interpolate' and (ev['s9'] <= 0 or min(c['s9'] for c in ev['comps']) <= 0):
+            why = 'beaten/non-positive-similarity-on-segment'
         ctx.violation(f"C08/{clause}/trace/{hdr['fitter']}/{why}", 'recorded fit call is not explained by the specification',
                       {'seed': meta[idx], 'hdr': hdr, 'diag': d, 'event': traces[idx]['ev'][d.get('l', 1) - 1]})
     ctx.extra['recorded_fit_sessions_validated'] = len(traces)
@@ -199,14 +202,14 @@ def run(ctx):
         ctx.violation(key, what, case)
     ctx.count(4)
     if thorough:
-        run_fit(ctx, 'f_3', 3, 3, cat='Cat3', trainmax=3, rset='R123', thin_t=5, pats='Pat3', opt_every=40)
+        run_fit(ctx, 'f_3', 3, 3, cat='Cat3', trainmax=3, rset='R123', thin_1=1, thin_t=11, pats='Pat3', opt_every=40)
         run_fit(ctx, 'f_4_r1', 3, 4, cat='Cat4', trainmax=2, rset='R1', thin_r=1, pats='Pat4', opt_every=60)
-        run_fit(ctx, 'f_4_r23', 3, 4, cat='Cat4', trainmax=2, rset='R123', thin_r=7, thin_t=3, pats='Pat4', opt_every=60)
+        run_fit(ctx, 'f_4_r23', 3, 4, cat='Cat4', trainmax=2, rset='R123', thin_r=7, thin_1=1, thin_t=7, pats='Pat4', opt_every=60)
         run_lin(ctx, 'lin_3', 3, 3, cat='Cat3', lingrid=2)
         run_lin(ctx, 'lin_4', 3, 4, cat='Cat4', lingrid=1)
     else:
-        run_fit(ctx, 'f_3', 3, 3, cat='Cat3', trainmax=3, rset='R12', thin_r=1, thin_t=23, pats='Pat3', opt_every=40)
-        run_fit(ctx, 'f_4', 3, 4, cat='Cat4', trainmax=2, rset='R12', thin_r=13, thin_t=3, pats='Pat4Few', opt_every=40)
+        run_fit(ctx, 'f_3', 3, 3, cat='Cat3', trainmax=3, rset='R12', thin_r=1, thin_1=7, thin_t=131, pats='Pat3', opt_every=10)
+        run_fit(ctx, 'f_4', 3, 4, cat='Cat4', trainmax=2, rset='R12', thin_r=13, thin_1=5, thin_t=67, pats='Pat4Few', opt_every=10)
         run_lin(ctx, 'lin_4', 3, 4, cat='Cat4K3', lingrid=1)
     ctx.exhaustive = thorough
     run_traces(ctx, 600 if thorough else 120)
